@@ -254,15 +254,55 @@ func hostileValue(name string, n int) any {
 	case "chan-ptr":
 		c := make(chan int)
 		return &c
+	case "chan-func-marshalers":
+		// pointer-shaped kinds other than pointers and maps, with value-receiver marshal methods, nil and not
+		return []any{jgen.ChanM(nil), jgen.ChanM(make(chan int, 2)), jgen.FuncT(nil), jgen.FuncT(func() int { return 1 }), struct{ C jgen.ChanM }{}, [1]jgen.ChanM{},
+			map[string]jgen.FuncT{"a": nil}, jgen.HPS{}}
+	case "chan-marshaler-nil":
+		return jgen.ChanM(nil)
+	case "map-ptrstructkey-text":
+		v := int16(7)
+		return map[jgen.KPS]int{{P: nil}: 1, {P: &v}: 2}
 	}
 	return nil
 }
+
+// nextI / cycT: a decode target that is cyclic through a non-empty interface holding a pointer
+// (every level of the document is decoded into the same variable).
+type nextI interface{ nx() }
+type cycT struct {
+	Next nextI
+	Any  any
+	Kids []nextI
+}
+
+func (*cycT) nx() {}
+
+func hostileTarget(name string) any {
+	switch name {
+	case "cyclic-iface-target":
+		x := &cycT{}
+		x.Next = x
+		return x
+	case "cyclic-any-target":
+		x := &cycT{}
+		x.Any = x
+		return x
+	case "cyclic-kids-target":
+		x := &cycT{}
+		x.Kids = []nextI{x}
+		return x
+	}
+	return nil
+}
+
+var hostileTargets = []string{"cyclic-iface-target", "cyclic-any-target", "cyclic-kids-target"}
 
 func nanF() float64 { var z float64; return z / z }
 
 var hostileNames = []string{"ptr-cycle", "slice-cycle", "map-cycle", "intmap-cycle", "iface-cycle", "nonempty-iface-cycle", "named-empty-iface-cycle", "named-iface-slice-cycle", "iface-map-cycle", "mixed-cycle", "struct-map-cycle", "deep-slice", "deep-map", "deep-ptr", "deep-kids",
 	"unsupported-struct", "unsupported-in-any", "nil", "typed-nil-ptr", "typed-nil-map", "nil-in-any", "array1-ptr", "array1-ptr-nil", "struct-array1-ptr", "array1-map", "array1-array1-ptr",
-	"struct-struct-ptr", "struct-ptr-nil", "map-ptrkey-text", "map-ptrkey-plain", "map-ifacekey", "map-structkey", "nan", "chan-ptr", "rec-map-type", "rec-slice-type", "rec-mapslice-type", "rec-map-type-cycle"}
+	"struct-struct-ptr", "struct-ptr-nil", "map-ptrkey-text", "map-ptrkey-plain", "map-ifacekey", "map-structkey", "nan", "chan-ptr", "rec-map-type", "rec-slice-type", "rec-mapslice-type", "rec-map-type-cycle", "chan-func-marshalers", "chan-marshaler-nil", "map-ptrstructkey-text"}
 
 // ------------------------------------------------------------------ execution
 
@@ -389,6 +429,8 @@ func run(c Case) (f *evid.Failure) {
 			target = reflect.Zero(reflect.PointerTo(t)).Interface() // typed nil pointer
 		}
 		decodeCall(c.API, c.Flags, docOf(c), target)
+	case "decode-hostile":
+		decodeCall(c.API, c.Flags, docOf(c), hostileTarget(c.Hostile))
 	case "bytes":
 		bytesCalls(docOf(c))
 	}
@@ -593,6 +635,18 @@ func TestNestingBombs(t *testing.T) {
 					for _, api := range []string{"Unmarshal", "Decoder"} {
 						exec(t, "NestingBombs", Case{Kind: "decode", Type: td, DocGen: gen, API: api})
 						n++
+					}
+				}
+				if strings.Contains(unit, "next") {
+					// the same bombs with the member names of the self-referential targets
+					g2 := fmt.Sprintf("%s|%d|%s", map[string]string{`[{"next":`: `{"Kids":[{"Next":`, `{"next":`: `{"Next":`}[unit], d, tail)
+					g3 := fmt.Sprintf("%s|%d|%s", `{"Any":`, d, tail)
+					for _, ht := range hostileTargets {
+						for _, api := range []string{"Unmarshal", "Decoder"} {
+							exec(t, "NestingBombs", Case{Kind: "decode-hostile", Hostile: ht, DocGen: g2, API: api})
+							exec(t, "NestingBombs", Case{Kind: "decode-hostile", Hostile: ht, DocGen: g3, API: api})
+							n += 2
+						}
 					}
 				}
 				evid.NonTrivial(evid.HashS("bomb", gen))
